@@ -165,6 +165,14 @@ func run(s *shared.Spec) error {
 		reg.SelectVersions()
 		return reg.DownloadUpdates(context.Background(), false)
 
+	case shared.OpUpdateIndexes:
+		reg, err := registry(s)
+		if err != nil {
+			return err
+		}
+		reg.AddIndex(updater.Index{Path: "stable.json", AutoDownload: true})
+		return reg.UpdateIndexes(context.Background())
+
 	case shared.OpUnpackArchive:
 		reg, err := registry(s)
 		if err != nil {
